@@ -131,6 +131,7 @@ def specLower (b : UInt8) : UInt8 := if 0x41 ≤ b.toNat ∧ b.toNat ≤ 0x5a th
 /-- two wire-form names are the same name: equal after case folding.  (Length octets are ≤ 63 <
     'A', so folding leaves them alone and this is label-by-label comparison.) -/
 def NameCiEq (a b : List UInt8) : Prop := a.map specLower = b.map specLower
+instance (a b : List UInt8) : Decidable (NameCiEq a b) := by unfold NameCiEq; infer_instance
 
 /-- field-wise equality: names case-insensitively, everything else octet for octet -/
 inductive FieldsEq : List Field → List (List UInt8) → List (List UInt8) → Prop
